@@ -90,7 +90,7 @@ Used == {plan[d].name : d \in DOMAIN plan}
 TypesBefore(d) == {e \in 1..(d - 1) : e <= Len(plan) /\ plan[e].kind = "type" /\ ~plan[e].dup /\ plan[e].name # "main" /\ plan[e].ty # UNK}
 TypeOf(nm, d) == IF nm = "int" THEN INT ELSE plan[CHOOSE e \in TypesBefore(d) : plan[e].name = nm].ty
 TypeRefs(d) == {"int"} \cup {plan[e].name : e \in TypesBefore(d)}
-Dims == IF Slim THEN {<<>>} ELSE {<<>>, <<2>>, <<3>>, <<2, 3>>}
+Dims == IF Slim THEN (IF Faults = {} THEN {<<>>} ELSE {<<>>, <<2>>}) ELSE {<<>>, <<2>>, <<3>>, <<2, 3>>}
 FaultOn(r) == fault = NoFault /\ r \in Faults
 
 \* add the array types of a type expression; returns [tys, ty]
@@ -201,6 +201,7 @@ Elem(t, k) == IF k = 0 THEN t ELSE IF k = 1 THEN (IF IsArr(t) THEN Base(t) ELSE 
               ELSE (IF IsArr(t) /\ IsArr(Base(t)) THEN Base(Base(t)) ELSE UNK)
 VarsReaching(ty) == IF ty = UNK THEN {} ELSE {<<v, k>> \in Usable \X (0..2) : Elem(Scope[v].ty, k) = ty}
 
+ArrVars == {u \in Usable : IsArr(Scope[u].ty)}
 RECURSIVE VarRhs(_, _)
 VarRhs(v, k) == IF k = 0 THEN <<O("NamedVar", Scope[v].name), Id(Scope[v].name, Scope[v].bind, "use"), C>>
                 ELSE <<O("ArrayAccess", "")>> \o VarRhs(v, k - 1) \o <<Sym("["), N("Expr", INT, ""), Sym("]"), C>>
@@ -312,6 +313,25 @@ Prods(sym) ==
          \cup (IF FaultOn("WhileConditionMustBeBoolean")
                THEN {<<Mark("WhileConditionMustBeBoolean"), O("While", ""), Kw("while"), Sym("(")>> \o Culprit("WhileConditionMustBeBoolean", <<N("Add", INT, "")>>)
                        \o <<Sym(")"), N("Stmt", 0, sym.x), C>>} ELSE {})
+         \* the same rules violated by an ARRAY-typed operand (a second class of instances of each rule)
+         \cup (IF FaultOn("IfConditionMustBeBoolean")
+               THEN {<<Mark("IfConditionMustBeBoolean"), O("If", ""), Kw("if"), Sym("(")>> \o Culprit("IfConditionMustBeBoolean", VarRhs(v, 0))
+                       \o <<Sym(")"), N("Stmt", 0, ""), C>> : v \in ArrVars} ELSE {})
+         \cup (IF FaultOn("WhileConditionMustBeBoolean")
+               THEN {<<Mark("WhileConditionMustBeBoolean"), O("While", ""), Kw("while"), Sym("(")>> \o Culprit("WhileConditionMustBeBoolean", VarRhs(v, 0))
+                       \o <<Sym(")"), N("Stmt", 0, sym.x), C>> : v \in ArrVars} ELSE {})
+         \cup (IF FaultOn("AssignmentHasDifferentTypes")
+               THEN {<<Mark("AssignmentHasDifferentTypes")>> \o Culprit("AssignmentHasDifferentTypes",
+                       <<O("Assign", "")>> \o VarRhs(a, 0) \o <<Sym(":=")>> \o VarRhs(b, 0) \o <<Sym(";"), C>>)
+                       : <<a, b>> \in {<<x, y>> \in Usable \X ArrVars : Scope[x].ty # Scope[y].ty}} ELSE {})
+         \cup (IF FaultOn("ArgumentsTypeMismatch")
+               THEN {<<Mark("ArgumentsTypeMismatch")>> \o
+                       CallRhs(c, Flat([j \in DOMAIN c.params |-> (IF j > 1 THEN <<Sym(",")>> ELSE <<>>)
+                                          \o (IF j = kw[1] THEN Culprit("ArgumentsTypeMismatch", VarRhs(kw[2], 0)) ELSE <<ArgFor(c.params[j])>>)]))
+                       : <<c, kw>> \in {<<x, jw>> \in Callees \X ((1..3) \X Usable) :
+                                          /\ Callable(x) /\ x.name \notin ScopeNames /\ jw[1] <= Len(x.params)
+                                          /\ Scope[jw[2]].ty # x.params[jw[1]].ty
+                                          /\ (IsArr(Scope[jw[2]].ty) \/ IsArr(x.params[jw[1]].ty))}} ELSE {})
          \cup (IF FaultOn("UndefinedProcedure")
                THEN {<<Mark("UndefinedProcedure")>> \o Culprit("UndefinedProcedure",
                        CallRhs([name |-> "undefinedproc", bind |-> ""], <<N("Expr", INT, "")>>))} ELSE {})
@@ -346,19 +366,33 @@ Prods(sym) ==
                     \cup (IF ty = INT /\ FaultOn("IndexingWithNonInteger")
                           THEN {<<Mark("IndexingWithNonInteger"), O("ArrayAccess", "")>> \o VarRhs(v, 0) \o <<Sym("[")>> \o Culprit("IndexingWithNonInteger", CmpInt) \o <<Sym("]"), C>>
                                   : v \in {u \in Usable : IsArr(Scope[u].ty) /\ Base(Scope[u].ty) = INT}} ELSE {})
+                    \cup (IF ty = INT /\ FaultOn("IndexingWithNonInteger")
+                          THEN {<<Mark("IndexingWithNonInteger"), O("ArrayAccess", "")>> \o VarRhs(v, 0) \o <<Sym("[")>> \o Culprit("IndexingWithNonInteger", VarRhs(w, 0)) \o <<Sym("]"), C>>
+                                  : <<v, w>> \in {u \in Usable : IsArr(Scope[u].ty) /\ Base(Scope[u].ty) = INT} \X ArrVars} ELSE {})
     [] n = "Expr" -> IF ty = BOOL
                      THEN {<<O("Binary", o), N("Add", INT, ""), Sym(o), N("Add", INT, ""), C>> : o \in (IF Slim THEN {"="} ELSE {"<", "="})}
                           \cup (IF FaultOn("ComparisonNonInteger")
                                 THEN {<<Mark("ComparisonNonInteger")>> \o Culprit("ComparisonNonInteger", <<O("Binary", "=")>> \o Paren(CmpInt) \o <<Sym("=")>> \o Paren(CmpInt) \o <<C>>)} ELSE {})
+                          \cup (IF FaultOn("ComparisonNonInteger")
+                                THEN {<<Mark("ComparisonNonInteger")>> \o Culprit("ComparisonNonInteger", <<O("Binary", "=")>> \o VarRhs(v, 0) \o <<Sym("=")>> \o VarRhs(v, 0) \o <<C>>) : v \in ArrVars} ELSE {})
                      ELSE {<<N("Add", INT, "")>>}
     [] n = "Add" -> {<<N("Mul", INT, "")>>} \cup (IF Slim THEN {} ELSE {<<O("Binary", "+"), N("Add", INT, ""), Sym("+"), N("Mul", INT, ""), C>>})
                     \cup (IF FaultOn("OperatorDifferentTypes")
                           THEN {<<Mark("OperatorDifferentTypes")>> \o Culprit("OperatorDifferentTypes", <<O("Binary", "+"), N("Add", INT, ""), Sym("+")>> \o Paren(CmpInt) \o <<C>>)} ELSE {})
                     \cup (IF FaultOn("ArithmeticOperatorNonInteger")
                           THEN {<<Mark("ArithmeticOperatorNonInteger")>> \o Culprit("ArithmeticOperatorNonInteger", <<O("Binary", "+")>> \o Paren(CmpInt) \o <<Sym("+")>> \o Paren(CmpInt) \o <<C>>)} ELSE {})
+                    \cup (IF FaultOn("OperatorDifferentTypes")
+                          THEN {<<Mark("OperatorDifferentTypes")>> \o Culprit("OperatorDifferentTypes", <<O("Binary", "+"), N("Mul", INT, ""), Sym("+")>> \o VarRhs(v, 0) \o <<C>>) : v \in ArrVars} ELSE {})
+                    \cup (IF FaultOn("ArithmeticOperatorNonInteger")
+                          THEN {<<Mark("ArithmeticOperatorNonInteger")>> \o Culprit("ArithmeticOperatorNonInteger", <<O("Binary", "+")>> \o VarRhs(v, 0) \o <<Sym("+")>> \o VarRhs(v, 0) \o <<C>>) : v \in ArrVars} ELSE {})
     [] n = "Mul" -> {<<N("Fac", INT, "")>>} \cup (IF Slim THEN {} ELSE {<<O("Binary", "*"), N("Mul", INT, ""), Sym("*"), N("Fac", INT, ""), C>>})
     [] n = "Fac" -> {IntLit(1)} \cup (IF Slim THEN {} ELSE {<<O("Unary", "-"), Sym("-"), N("Fac", INT, ""), C>>, Paren(<<N("Expr", INT, "")>>)})
                     \cup (IF VarsReaching(INT) = {} THEN {} ELSE {<<N("Var", INT, "")>>})
+                    \* the negation of a comparison or of an array
+                    \cup (IF FaultOn("ArithmeticOperatorNonInteger")
+                          THEN {<<Mark("ArithmeticOperatorNonInteger")>> \o Culprit("ArithmeticOperatorNonInteger", <<O("Unary", "-"), Sym("-")>> \o Paren(CmpInt) \o <<C>>)}
+                               \cup {<<Mark("ArithmeticOperatorNonInteger")>> \o Culprit("ArithmeticOperatorNonInteger", <<O("Unary", "-"), Sym("-")>> \o VarRhs(v, 0) \o <<C>>) : v \in ArrVars}
+                          ELSE {})
 
 MinTok(sym) ==
   IF sym.t = "tok" THEN 1
